@@ -1461,6 +1461,44 @@ func ruleM2(w *world.World, r *report.RuleResult) {
 			} else {
 				r.Fail(key, w.InstrPos(m.clrs[0]), name+" clears a database without subtracting the sizes of its entries: after FLUSHDB/FLUSHALL the reported usage is not zero for an empty dataset")
 			}
+			// the subtraction is for the database that is cleared: when the sizes are released by a helper
+			// taking the database index, that argument is the index of the store entry being cleared
+			for i, clr := range m.clrs {
+				lk, ok := clr.(ssa.CallInstruction).Common().Args[0].(*ssa.Lookup)
+				if !ok {
+					continue
+				}
+				var rel ssa.CallInstruction
+				for _, c := range world.Calls(fn) {
+					if f := c.Common().StaticCallee(); f != nil && f != fn {
+						if cm := evs[f]; cm != nil && len(cm.subs) > 0 && len(cm.updates) == 0 && c.Block() == clr.Block() {
+							rel = c
+						}
+					}
+				}
+				if rel == nil {
+					continue
+				}
+				key := fmt.Sprintf("%s|clear-subtracts-same-database#%d", name, i+1)
+				same := false
+				for _, a := range rel.Common().Args {
+					if b, ok := a.Type().Underlying().(*types.Basic); ok && b.Kind() == types.Int && (a == lk.Index || world.SameExpr(a, lk.Index)) {
+						same = true
+					}
+				}
+				if same {
+					r.OK(key, w.InstrPos(rel), "the sizes released are those of the database whose store is cleared (same index value)")
+				} else {
+					r.Fail(key, w.InstrPos(rel), fmt.Sprintf("%s clears store[%s] but releases the accounted sizes of database %s: when the two differ (FLUSHALL passes -1 and loops over the databases) nothing is subtracted, the counter keeps the flushed keys' sizes for ever, and the max-memory tests then refuse writes or evict keys on a nearly empty server", name, exprString(lk.Index), func() string {
+						for _, a := range rel.Common().Args {
+							if b, ok := a.Type().Underlying().(*types.Basic); ok && b.Kind() == types.Int {
+								return exprString(a)
+							}
+						}
+						return "?"
+					}()))
+				}
+			}
 		}
 		if m.neutral > 0 {
 			r.OK(name+"|size-neutral-update", w.Pos(fn.Pos()), "entry rewritten with the same stored value (deadline change only): size-neutral")
